@@ -617,6 +617,26 @@ func c14idle(rep *vh.Report, seed uint64, idx int, kind string) {
 			}
 		}
 	}
+	// a client-type endpoint whose channel expired must open a fresh one after the reconnect delay
+	if !closedEarly && life.count(false) >= 1 && (kind == "tcp-client" || kind == "udp-client") {
+		if ln != nil {
+			go func() {
+				if c, err := ln.Accept(); err == nil {
+					defer c.Close()
+					buf := make([]byte, 256)
+					for {
+						if _, err := c.Read(buf); err != nil {
+							return
+						}
+					}
+				}
+			}()
+		}
+		if !waitFor(func() bool { return life.count(true) >= 2 }, life.progress, 1500*time.Millisecond) {
+			rep.Violation("ep="+kind+" what=no-reconnect", "after its channel was closed for idleness the client endpoint did not open a fresh channel", nil)
+		}
+		rep.Count("idle_reconnects_checked", 1)
+	}
 	node.Close()
 	<-life.done
 	if conn != nil {
